@@ -6,7 +6,7 @@ real `Subscriptions` table, field by field) and evaluates the property's specifi
 
 Ops (`now` in ticks, `hz` ticks per second in the case header `case <id> subs <N> <hz>`):
   `chg e c a` | `chgw e|* c|*` | `add now fab peer min max evwm` | `rep now evwm` | `q id` |
-  `fin id keep|retry|drop` | `purge` | `rm fab peer` | `rmexp now` | `nra evwm` | `persist` |
+  `fin id keep|retry|drop|unsent` | `purge` | `rm fab peer` | `rmexp now` | `nra evwm` | `persist` |
   `restart now evwm`
 Output of every op: `<result> | <nextSubId> <count> <nextChangeId> <cancelled> | <reporting> |
 <table> | <entries> | <contexts> | <persisted records>`.
@@ -247,6 +247,11 @@ def oracle (hz n : Nat) (okv : List String) (os : List OSub) (ws : List String) 
             if mode = "drop" || o.mustEnd then os.filter (fun x => x.id ≠ id)
             else if mode = "keep" then
               updateO os id fun o => { o with owed := o.afterBegin, afterBegin := [], lastSuccess := some fl.now, ackedEv := fl.evwm, flight := none }
+            else if mode = "unsent" then
+              -- the report was empty and not sent: nothing of what was pending concerns the subscriber
+              -- (asserted by the caller); this is not a delivered report
+              updateO os id fun o => { o with owed := if fl.priming || o.lastSuccess.isNone then o.owed else o.afterBegin,
+                                              afterBegin := [], ackedEv := fl.evwm, flight := none }
             else updateO os id fun o => { o with afterBegin := [], flight := none }
           let gone := if (mode = "drop" || o.mustEnd) && itab.any (fun i => i.id = id) then some s!"ended subscription {id} is back in the table" else none
           (os', firstSome [gone, checkPresent os' itab])
@@ -350,7 +355,8 @@ def modelStep (m : State) (ws : List String) : Option (State × String) :=
     match ids.toNat? with
     | none => none
     | some id =>
-      let f := if mode = "keep" then Fin.keep else if mode = "retry" then Fin.retry else Fin.drop
+      let f := if mode = "keep" then Fin.keep else if mode = "retry" then Fin.retry
+               else if mode = "unsent" then Fin.unsent else Fin.drop
       let r := m.fin id f
       some (r.1, if r.2 then "done" else "noctx")
   | ["purge"] => some (m.purge, "-")
